@@ -212,12 +212,41 @@ let conc_finals h blobs (s : st) (calls : ccall list) : string list * string lis
   (List.sort compare (Hashtbl.fold (fun k () acc -> k :: acc) finals []),
    List.sort compare (Hashtbl.fold (fun k () acc -> k :: acc) every []))
 
-let parse_conc blobs (sc : string) : ccall list =
+(* the same for goroutines that make several calls (Model gstep: the program of a call is decided
+   when it starts) *)
+let go_finals h blobs (s : st) (qs : ccall list list) : string list * string list =
+  let g0 = gstart s qs in
+  let n = List.length qs in
+  let show (c : conf) =
+    let idx = match read_index c.cfs with Some l -> show_index l | None -> "none" in
+    let bl = List.filter (fun b -> exists_file c.cfs (FBlob (n_of_int b.bid))) blobs in
+    "I=" ^ idx ^ ";B=" ^ String.concat "," (List.map (fun b -> string_of_int b.bid) bl) in
+  let key (g : gconf) = (show g.gc, Marshal.to_string (g.gc.ctags, g.gc.cdigs, g.gc.clock, g.gc.cthreads, g.gq) []) in
+  let seen = Hashtbl.create 9973 in
+  let finals = Hashtbl.create 17 in
+  let every = Hashtbl.create 97 in
+  let rec go (g : gconf) =
+    let k = key g in
+    if not (Hashtbl.mem seen k) && Hashtbl.length seen < 400000 then begin
+      Hashtbl.add seen k ();
+      Hashtbl.replace every (show g.gc) ();
+      if gquietb g then Hashtbl.replace finals (show g.gc) ()
+      else
+        for i = 0 to n - 1 do
+          let g' = gsched h shuffle g [nat_of_int i] in
+          if key g' <> k then go g'
+        done
+    end in
+  go g0;
+  (List.sort compare (Hashtbl.fold (fun k () acc -> k :: acc) finals []),
+   List.sort compare (Hashtbl.fold (fun k () acc -> k :: acc) every []))
+
+let parse_conc blobs (sc : string) : ccall list list =
   let parts = String.split_on_char ';' sc in
   let f = List.fold_left (fun acc x ->
       if String.length x >= 5 && String.sub x 0 5 = "conc=" then String.sub x 5 (String.length x - 5) else acc) "" parts in
   let num x = n_of_int (int_of_string x) in
-  List.map (fun it ->
+  let call it =
       match String.split_on_char ':' it with
       | ["push"; d] ->
         let b = List.find (fun b -> b.bid = int_of_string d) blobs in
@@ -225,7 +254,9 @@ let parse_conc blobs (sc : string) : ccall list =
       | ["tag"; d; r] -> CTag (num d, num r)
       | ["untag"; r] -> CUntag (num r)
       | ["saveindex"] -> CSaveIndex
-      | _ -> failwith "conc call") (List.filter (fun y -> y <> "") (String.split_on_char '|' f))
+      | _ -> failwith "conc call" in
+  List.map (fun q -> List.map call (List.filter (fun y -> y <> "") (String.split_on_char '+' q)))
+    (List.filter (fun y -> y <> "") (String.split_on_char '|' f))
 
 (* initialisation: final=init; the history (if any) consists of earlier attempts crash:<j>:init *)
 let is_init sc =
@@ -302,7 +333,11 @@ let () =
       let (blobs, hist, _) = parse_script sc in
       let h = hfun blobs in
       let s = run_hist h blobs hist in
-      let (fs, every) = conc_finals h blobs s (parse_conc blobs sc) in
+      let qs = parse_conc blobs sc in
+      (* single calls: the batch model (start/sched); queues of calls: gstart/gsched *)
+      let (fs, every) =
+        if List.for_all (fun q -> List.length q = 1) qs then conc_finals h blobs s (List.map List.hd qs)
+        else go_finals h blobs s qs in
       (* "any:<dir>": the process was killed; <dir> must be the directory of some reachable configuration *)
       let killed = String.length obs > 4 && String.sub obs 0 4 = "any:" in
       let obs' = if killed then String.sub obs 4 (String.length obs - 4) else obs in
